@@ -36,6 +36,8 @@ func concModelOp(kind string, recv int, tag string) Step {
 		return Step{Op: "Filter", Recv: recv, Clause: leaf("A", ">", &Val{T: "int", I: 0})}
 	case "FilterEnum":
 		return Step{Op: "Filter", Recv: recv, Clause: leaf("Y", []string{"=", "<", ">="}[len(tag)%3], &Val{T: "string", S: toBS("y7")})}
+	case "FilterAnd":
+		return Step{Op: "Filter", Recv: recv, Clause: &Clause{K: "and", Subs: []Clause{*leaf("P", ">=", &Val{T: "int", I: 0}), *leaf("A", "<", &Val{T: "int", I: 2})}}}
 	case "FilterOr":
 		return Step{Op: "Filter", Recv: recv, Clause: &Clause{K: "or", Subs: []Clause{{K: "and", Subs: []Clause{*leaf("A", "<", &Val{T: "int", I: 1})}},
 			{K: "not", Subs: []Clause{*leaf("X", "=", &Val{T: "string", S: toBS("mid")})}}}}}
